@@ -431,6 +431,8 @@ pub enum Family {
     TwoLeaf,
     CyclicParents,
     DeepTree,
+    /// `Rich`, written encrypted (RC4, 40 or 128 bit, plain or through crypt filters; empty user password)
+    RichEncrypted,
 }
 impl Family {
     pub fn name(&self) -> &'static str {
@@ -439,6 +441,7 @@ impl Family {
             Family::TwoLeaf => "two_leaf",
             Family::CyclicParents => "cyclic_parents",
             Family::DeepTree => "deep_tree",
+            Family::RichEncrypted => "rich_encrypted",
         }
     }
 }
@@ -453,5 +456,11 @@ pub fn generate(family: &Family, rng: &mut Rng) -> DocSpec {
         Family::TwoLeaf => two_leaf(rng, &layout),
         Family::CyclicParents => cyclic_parents(rng, &layout),
         Family::DeepTree => deep_tree(rng, &layout),
+        Family::RichEncrypted => {
+            let o = RichOpts::random(rng);
+            let mut layout = layout;
+            layout.encrypt = Some(*rng.pick(&[(2u8, 5usize), (3, 5), (3, 16), (4, 16)]));
+            rich(rng, &o, &layout)
+        }
     }
 }
